@@ -142,12 +142,12 @@ type swEval struct {
 	ret       bitvec
 	returned  bool
 	// lenOf: lengths of slice parameters
-	lenOf map[types.Object]int
-	ints     map[types.Object]int
-	locals   map[types.Object]bitvec
-	big      map[string]bitvec // receiver field -> vector
-	fail     string
-	steps    int
+	lenOf  map[types.Object]int
+	ints   map[types.Object]int
+	locals map[types.Object]bitvec
+	big    map[string]bitvec // receiver field -> vector
+	fail   string
+	steps  int
 }
 
 func (e *swEval) bad(f string, a ...any) {
